@@ -56,6 +56,17 @@ merge_error(int p1, int p2, int p3, int reason)
   return NULL;
 }
 
+
+/* Merging only has to know whether two values are the same.  For object
+ * values ask for equality: asking for an ordering (TEST_VALUE) fails for
+ * values that are equal but not orderable, such as dicts.
+ */
+#ifdef VALUE_TYPE_IS_PYOBJECT
+#define VALUE_SAME(V1, V2) (PyObject_RichCompareBool((V1), (V2), Py_EQ) > 0)
+#else
+#define VALUE_SAME(V1, V2) (TEST_VALUE((V1), (V2)) == 0)
+#endif
+
 /* It's hard to explain "the rules" for bucket_merge, in large part because
  * any automatic conflict-resolution scheme is going to be incorrect for
  * some endcases of *some* app.  The scheme here is pretty conservative,
@@ -136,11 +147,11 @@ bucket_merge(Bucket *s1, Bucket *s2, Bucket *s3)
         {
           if (cmp13==0)
             {
-              if (set || (TEST_VALUE(i1.value, i2.value) == 0))
+              if (set || VALUE_SAME(i1.value, i2.value))
                 {               /* change in i3 value or all same */
                   if (merge_output(r, &i3, mapping) < 0) goto err;
                 }
-              else if (set || (TEST_VALUE(i1.value, i3.value) == 0))
+              else if (set || VALUE_SAME(i1.value, i3.value))
                 {               /* change in i2 value */
                   if (merge_output(r, &i2, mapping) < 0) goto err;
                 }
@@ -158,7 +169,7 @@ bucket_merge(Bucket *s1, Bucket *s2, Bucket *s3)
               if (merge_output(r, &i3, mapping) < 0) goto err;
               if (i3.next(&i3) < 0) goto err;
             }
-          else if (set || (TEST_VALUE(i1.value, i2.value) == 0))
+          else if (set || VALUE_SAME(i1.value, i2.value))
             {                   /* deleted in i3 */
               if (i3.position == 1)
                 {
@@ -185,7 +196,7 @@ bucket_merge(Bucket *s1, Bucket *s2, Bucket *s3)
               if (merge_output(r, &i2, mapping) < 0) goto err;
               if (i2.next(&i2) < 0) goto err;
             }
-          else if (set || (TEST_VALUE(i1.value, i3.value) == 0))
+          else if (set || VALUE_SAME(i1.value, i3.value))
             {                   /* deleted in i2 */
               if (i2.position == 1)
                 {
@@ -267,7 +278,7 @@ bucket_merge(Bucket *s1, Bucket *s2, Bucket *s3)
           if (merge_output(r, &i2, mapping) < 0) goto err;
           if (i2.next(&i2) < 0) goto err;
         }
-      else if (cmp12==0 && (set || (TEST_VALUE(i1.value, i2.value) == 0)))
+      else if (cmp12==0 && (set || VALUE_SAME(i1.value, i2.value)))
         {                       /* delete i3 */
           if (i1.next(&i1) < 0) goto err;
           if (i2.next(&i2) < 0) goto err;
@@ -287,7 +298,7 @@ bucket_merge(Bucket *s1, Bucket *s2, Bucket *s3)
           if (merge_output(r, &i3, mapping) < 0) goto err;
           if (i3.next(&i3) < 0) goto err;
         }
-      else if (cmp13==0 && (set || (TEST_VALUE(i1.value, i3.value) == 0)))
+      else if (cmp13==0 && (set || VALUE_SAME(i1.value, i3.value)))
         {                       /* delete i2 */
           if (i1.next(&i1) < 0) goto err;
           if (i3.next(&i3) < 0) goto err;
